@@ -31,20 +31,25 @@ KF_TEXT = ("RankInvariantChecker.evaluate never returns when the bound of some n
 class Recorder:
     """A user-level decision maker: records every matrix it is asked to evaluate."""
 
-    def __init__(self, inner, drop=None, drop_from=0, drop_until=None, reorder=False):
+    def __init__(self, inner, drop=None, drop_from=0, drop_until=None, reorder=False, own_note=False):
         self.inner, self.drop, self.drop_from, self.drop_until = inner, drop, drop_from, drop_until
-        self.reorder = reorder
+        self.reorder, self.own_note = reorder, own_note
         self.seen = []
 
     def _out(self, res):
         """The result as it is, or (reorder) listing the alternatives best-first: a ranking may list its
         alternatives in any order."""
-        if not self.reorder:
-            return res
         from skcriteria.agg import RankResult
+        # (own_note: the decision maker keeps notes of its own in the extras, one of them under the name the
+        # rank-reversal test uses for its record)
+        note = {"rrt1": "the decision maker's own note", "note": 1} if self.own_note else {}
+        if not self.reorder:
+            if not self.own_note:
+                return res
+            return RankResult(res.method, res.alternatives, res.values, dict(dict(res.extra_.items()), **note))
         vals = np.asarray(res.values)
         perm = np.argsort(vals, kind="stable")
-        return RankResult(res.method, np.asarray(res.alternatives)[perm], vals[perm], {})
+        return RankResult(res.method, np.asarray(res.alternatives)[perm], vals[perm], note)
 
     def evaluate(self, dm):
         self.seen.append({"alternatives": [str(a) for a in dm.alternatives],
@@ -82,7 +87,8 @@ def gen_case(rng):
             "seed": rng.choice([0, rng.randint(0, 10 ** 6), rng.randint(0, 10 ** 6), rng.randint(0, 10 ** 6), 2 ** 32 - 1]), "drop": drop, "allow_missing": rng.random() < 0.7 and drop != "first",
             # which alternative the decision maker loses (not always the last one), and whether its results list the
             # alternatives in the matrix's order or best-first
-            "drop_pos": rng.randrange(n) if rng.random() < 0.5 else -1, "reorder": rng.random() < 0.3}
+            "drop_pos": rng.randrange(n) if rng.random() < 0.5 else -1, "reorder": rng.random() < 0.3,
+            "own_note": rng.random() < 0.25}
 
 
 def experiment(case, via_copy=False):
@@ -96,7 +102,8 @@ def experiment(case, via_copy=False):
         drop_alt = list(case["alternatives"][-2:])
     rec = Recorder(M.make({"name": case["dmaker"]}), drop=drop_alt,
                    drop_from=0 if case["drop"] in ("every", "first") else 2,
-                   drop_until=1 if case["drop"] == "first" else None, reorder=bool(case.get("reorder")))
+                   drop_until=1 if case["drop"] == "first" else None, reorder=bool(case.get("reorder")),
+                   own_note=bool(case.get("own_note")))
     strat = {"median": "median", "mean": "mean", "max": np.max, "min": np.min}[case["strategy"]]
     chk = RankInvariantChecker(rec, repeat=case["repeat"], last_diff_strategy=strat, random_state=case["seed"],
                                allow_missing_alternatives=case["allow_missing"])
@@ -253,7 +260,7 @@ def zero_bound_predicted(case):
         dm = I.mk(case)
         drop_alt = case["alternatives"][case.get("drop_pos", -1)] if case["drop"] else None
         rec = Recorder(M.make({"name": case["dmaker"]}), drop=drop_alt, drop_from=0 if case["drop"] == "every" else 2,
-                       reorder=bool(case.get("reorder")))
+                       reorder=bool(case.get("reorder")), own_note=bool(case.get("own_note")))
         strat = {"median": "median", "mean": "mean", "max": np.max, "min": np.min}[case["strategy"]]
         chk = RankInvariantChecker(rec, repeat=case["repeat"], last_diff_strategy=strat, random_state=case["seed"],
                                    allow_missing_alternatives=case["allow_missing"])
